@@ -178,6 +178,11 @@ def run(ctx, report: Report) -> None:
                         defs = [st.value for st in walk_no_nested(fnode) if isinstance(st, (ast.Assign, ast.AnnAssign))
                                 and any(isinstance(t, ast.Name) and t.id == node.func.id for t in (
                                     st.targets if isinstance(st, ast.Assign) else [st.target]))]
+                        # ... or the target of `for step in (self.a, self.b):`
+                        for lp in walk_no_nested(fnode):
+                            if isinstance(lp, (ast.For, ast.comprehension)) and isinstance(lp.target, ast.Name) \
+                                    and lp.target.id == node.func.id:
+                                defs.extend(lp.iter.elts if isinstance(lp.iter, (ast.Tuple, ast.List)) else [lp.iter])
                         alias_of_method = bool(defs) and all(isinstance(d, ast.Attribute) and isinstance(d.value, ast.Name)
                                                              and d.value.id in ('self', 'cls') for d in defs if d is not None)
                     internal = alias_of_method or cn.startswith(('self.', 'cls.')) or cn.split('.')[0] in ('cm', 'ct', 'cp', 'util') \
